@@ -66,11 +66,11 @@ MODEL_TIMEOUT = 1800
 
 EPS = 2.0 ** -53
 # calibrated (VERIF_SEED=1..3 + default quick, one thorough run; CV_CALIB=1 prints the maxima of error/allowance with
-# C = 1): quad5:poly 0.13, romberg:poly 0.22, trapz:affine 0.23, samples 0.24, trapz:bound 0.0016, romberg:tol 0.029
+# C = 1): quad5:poly 0.13, romberg:poly 0.22, trapz:affine 0.24, samples 0.46 (after the strata pass), trapz:bound 0.10, romberg:tol 0.029
 # -> constants >= 100 x those:
 C_P = 32.0       # polynomial exactness
 C_T = 16.0       # rounding part of the trapezoid error bound
-C_S = 32.0        # sampled trapezoid
+C_S = 64.0        # sampled trapezoid
 K_TOL = 4.0      # early-exit accuracy in the well-resolved regime
 TINY = 1e-300
 
@@ -268,10 +268,10 @@ def rand_poly(rng, dmax):
 EPS_CHOICES = [1e-12, 1e-10, 1e-8, 1e-6, 1e-5, 1e-4, 1e-3]
 
 
-def romberg_family(rng, tag, ig, a, b, k, neps=2):
+def romberg_family(rng, tag, ig, a, b, k, neps=2, eps_list=None):
     L = ["romberg %s %s %s %s %s %d" % (tag + ":diag", ig, f2h(a), f2h(b), f2h(0.0), j) for j in range(1, k + 1)]
-    for _ in range(neps):
-        L.append("romberg %s %s %s %s %s %d" % (tag + ":eps", ig, f2h(a), f2h(b), f2h(rng.choice(EPS_CHOICES)), k))
+    for e in (eps_list if eps_list is not None else [rng.choice(EPS_CHOICES) for _ in range(neps)]):
+        L.append("romberg %s %s %s %s %s %d" % (tag + ":eps", ig, f2h(a), f2h(b), f2h(e), k))
     return L
 
 
@@ -425,7 +425,200 @@ def gen(rng, tier):
         else:
             lines.append("trapezoid samples:default %s nox nodx" % vec(y))
             bump("samples:default")
+    lines += strata(rng.fork("strata"), tier, bump)
     return lines, cover
+
+
+# ------------------------------------------------------------------ generic strata (tools/GENERIC_STRATA.md)
+def special_reals(rng):
+    k = rng.randint(-8, 9)
+    p2 = 2.0 ** k
+    return [0.0, -0.0, 1.0, -1.0, 0.5, -0.5, 1.5, 2.0, 3.0, 1.0 / 3.0, 2.0 / 3.0, -1.0 / 3.0, p2, -p2, math.nextafter(p2, 0.0),
+            math.nextafter(p2, 2 * p2), 1000.0, -1000.0, 1e-300, 5e-324, float(rng.randint(-100, 100)), rng.randint(-99, 99) + 0.5]
+
+
+def poly_mul(p, q):
+    r = [Fraction(0)] * (len(p) + len(q) - 1)
+    for i, u in enumerate(p):
+        for j, v in enumerate(q):
+            r[i + j] += u * v
+    return r
+
+
+def flat_poly(rng):
+    """non-affine polynomial with p(mid) = (p(a)+p(b))/2 exactly, so that R[1][1] = R[0][0] (round-2 seed C07d):
+    affine + c * (x-a)(x-m)(x-b) * q(x), q of degree 1 or the cubic itself; returns (coeffs, a, b) or None."""
+    a = Fraction(rng.randint(-3, 3))
+    h = Fraction(rng.choice([1, 2, 4, 1, 1])) / rng.choice([1, 2, 4])
+    m, b = a + h, a + 2 * h
+    cubic = poly_mul(poly_mul([-a, Fraction(1)], [-m, Fraction(1)]), [-b, Fraction(1)])
+    if rng.chance(0.4):
+        q = cubic
+    else:
+        q = [Fraction(rng.randint(-4, 4)) / rng.choice([1, 2]), Fraction(rng.choice([1, -1, 2]))]
+    p = poly_mul(cubic, q)
+    c = Fraction(rng.choice([1, -1, 2, 8, -16]))
+    p = [c * v for v in p]
+    p[0] += rng.randint(-3, 3)
+    p[1] += rng.randint(-2, 2)
+    fl_ = [float(v) for v in p]
+    if any(Fraction(f) != v for f, v in zip(fl_, p)):
+        return None
+    return fl_, float(a), float(b)
+
+
+def sample_lines(rng, tagsfx, y, modes=("x", "ux", "dx", "default")):
+    L = []
+    n = len(y)
+    for mode in modes:
+        if mode == "x":
+            x0 = rng.choice([0.0, -1.0, rng.uniform(-100, 100), float(rng.randint(-50, 50))])
+            x = []
+            for _i in range(n):
+                x.append(x0)
+                x0 += rng.choice([rng.loguniform(1e-3, 10), 0.5, 1.0, 0.0 if rng.chance(0.1) else 0.25])
+            L.append("trapezoid samples:x%s %s x %s nodx" % (tagsfx, vec(y), vec(x)))
+        elif mode == "ux":
+            d = rng.choice([0.5, 0.25, 2.0, 1.0, 0.125, 3.0, -0.5])
+            x0 = float(rng.randint(-50, 50))
+            L.append("trapezoid samples:ux %s x %s nodx" % (vec(y), vec([x0 + i * d for i in range(n)])))
+            L.append("trapezoid samples:udx %s nox dx %s" % (vec(y), f2h(d)))
+        elif mode == "dx":
+            L.append("trapezoid samples:dx%s %s nox dx %s" % (tagsfx, vec(y), f2h(rng.choice([rng.loguniform(1e-3, 1e2), 1.0, 0.5, -2.0, 0.0, 1.0 / 3.0]))))
+        else:
+            L.append("trapezoid samples:default%s %s nox nodx" % (tagsfx, vec(y)))
+    return L
+
+
+def strata(rng, tier, bump):
+    L = []
+    thorough = tier != "quick"
+    reps = 1 if not thorough else 5
+    C = catalogue()
+    TINY_EPS = [1e-300, 5e-324, 1e-18]
+    # (1) a > b with the level budget exhausted: eps = 0 or an unreachable tolerance (round-3 seed C07f)
+    for _ in range(20 * reps):
+        a, b = interval(rng)
+        if a < b:
+            a, b = b, a
+        if rng.chance(0.3):
+            a, b = float(rng.randint(0, 8)), float(rng.randint(-8, 0))
+        c = rand_poly(rng, rng.choice([1, 3, 5, 7, 9, 13, 19]))
+        k = rng.randint(1, 10)
+        L += romberg_family(rng, "poly", ig_poly(c), a, b, k, eps_list=[rng.choice(TINY_EPS), rng.choice(TINY_EPS)])
+        bump("strata:a>b-exhausted")
+    for _ in range(2 * reps):
+        for name in NAMES:
+            kp, a, b = C[name]["gen"](rng)
+            if a < b:
+                a, b = b, a
+            k = rng.randint(1, 7)
+            L += romberg_family(rng, name + ":wide", ig_named(name, kp), a, b, k, eps_list=[rng.choice(TINY_EPS), 1e-15])
+            bump("strata:a>b-exhausted-smooth")
+    # (2) level budgets 16..20 with eps = 0 (both orientations)
+    for _ in range(reps):
+        for k in (16, 17, 18, 19, 20):
+            a, b = interval(rng)
+            c = rand_poly(rng, 19)
+            L.append("romberg poly:diag %s %s %s %s %d" % (ig_poly(c), f2h(a), f2h(b), f2h(0.0), k))
+            L.append("romberg poly:diag %s %s %s %s %d" % (ig_poly(c), f2h(b), f2h(a), f2h(0.0), k))
+            name = rng.choice(NAMES)
+            kp, a, b = C[name]["gen"](rng)
+            L.append("romberg %s:wide:diag %s %s %s %s %d" % (name, ig_named(name, kp), f2h(a), f2h(b), f2h(0.0), k))
+            bump("strata:levels16-20")
+    # (3) integrands with f(mid) = (f(a)+f(b))/2 and eps > 0 (round-2 seed C07d)
+    for _ in range(16 * reps):
+        fp = flat_poly(rng)
+        if fp is None:
+            continue
+        c, a, b = fp
+        k = rng.randint(3, 8)
+        u, v = (a, b) if rng.chance(0.6) else (b, a)
+        L += romberg_family(rng, "poly", ig_poly(c), u, v, k, eps_list=[rng.choice(EPS_CHOICES), rng.choice(EPS_CHOICES), 0.5])
+        bump("strata:flat-midpoint-poly")
+    pi = math.pi
+    for (name, kp, a, b) in [("sin2", 2 * pi, 0.0, 1.0), ("cosk", 4 * pi, 0.0, 1.0), ("sin2", pi, -1.0, 1.0), ("cosk", 2 * pi, -1.0, 1.0),
+                             ("sink", 2 * pi, 0.0, 1.0), ("sin2", 1.0, 0.0, 2 * pi), ("cosk", 2.0, 0.0, 2 * pi), ("sin2", 2.0, -pi, pi)]:
+        for (u, v) in ((a, b), (b, a)):
+            L += romberg_family(rng, name + ":wide", ig_named(name, kp), u, v, rng.randint(6, 10), eps_list=[1e-8, 1e-3, rng.choice(EPS_CHOICES)])
+        bump("strata:flat-midpoint-periodic")
+    # (4) exact special values for the limits and the coefficients; panel-count boundaries
+    NB = [1, 2, 3, 4, 5, 7, 8, 9, 15, 16, 17, 31, 32, 33, 63, 64, 65, 127, 128, 129, 255, 256, 257, 511, 512, 513, 1023, 1024, 1025,
+          2047, 2048, 2049, 4095, 4096]
+    for _ in range(reps):
+        for n in NB:
+            sp = special_reals(rng)
+            a, b = rng.choice(sp), rng.choice(sp)
+            c = [rng.choice(sp) if rng.chance(0.5) else float(rng.randint(-9, 9)) for _ in range(rng.choice([1, 2, 2, 3, 6]))]
+            c = [v if abs(v) > 1e-200 or v == 0.0 else 0.0 for v in c]
+            L.append("trapz poly %s %s %s %d" % (ig_poly(c), f2h(a), f2h(b), n))
+            L.append("trapz poly %s %s %s %d" % (ig_poly(c[:2]), f2h(b), f2h(a), n))
+            bump("strata:panel-boundary")
+    for _ in range(30 * reps):
+        sp = special_reals(rng)
+        a, b = rng.choice(sp), rng.choice(sp)
+        c = [rng.choice(sp) if rng.chance(0.4) else rng.normal() for _ in range(rng.randint(1, 12))]
+        c = [v if abs(v) > 1e-200 or v == 0.0 else 0.0 for v in c]
+        L.append("quad5 poly %s %s %s" % (ig_poly(c), f2h(a), f2h(b)))
+        L.append("trapz poly %s %s %s %d" % (ig_poly(c), f2h(a), f2h(b), rng.choice(NB)))
+        L += romberg_family(rng, "poly", ig_poly(c), a, b, rng.randint(1, 8))
+        bump("strata:special-values")
+    # (5) extreme scale: coefficients times 2^+-500 scale every rule exactly
+    for _ in range(6 * reps):
+        g = 10 ** 9 + len(L)
+        a, b = float(rng.randint(-8, 8)), rng.uniform(-8, 8)
+        c = rand_poly(rng, 9)
+        n, k = rng.choice([1, 3, 8, 100]), rng.randint(1, 8)
+        for j, e in enumerate([0, 500, -500]):
+            cs = [v * 2.0 ** e for v in c]
+            tag = "poly:ps:%d:%d:%d" % (g, j, e)
+            L.append("trapz %s %s %s %s %d" % (tag, ig_poly(cs), f2h(a), f2h(b), n))
+            L.append("quad5 %s %s %s %s" % (tag, ig_poly(cs), f2h(a), f2h(b)))
+            L.append("romberg %s %s %s %s %s %d" % (tag, ig_poly(cs), f2h(a), f2h(b), f2h(0.0), k))
+        bump("strata:extreme-scale")
+    # (6) sampled trapezoid: exactly two samples (round-3 seed C07g), 0/1/3 samples, in every spacing mode
+    for _ in range(6 * reps):
+        for n in (2, 2, 2, 1, 3, 0):
+            sp = special_reals(rng)
+            y = [rng.choice(sp) if rng.chance(0.5) else rng.normal() * 10.0 ** rng.randint(-2, 3) for _ in range(n)]
+            L += sample_lines(rng, "", y)
+            bump("strata:samples-n%d" % n)
+    # (7) sample-array length boundaries (blocked summation at 1024 / 2048: seed C07b)
+    SB = [4, 5, 7, 8, 9, 15, 16, 17, 31, 32, 33, 63, 64, 65, 127, 128, 129, 255, 256, 257, 511, 512, 513, 1023, 1024, 1025, 1026,
+          2047, 2048, 2049, 2050, 4095, 4096, 4097, 4098, 8191, 8192, 8193, 10000]
+    for _ in range(reps):
+        for n in SB:
+            y = [rng.normal() * 10.0 + 5.0 for _ in range(n)] if rng.chance(0.7) else [float(rng.randint(1, 20)) for _ in range(n)]
+            modes = ("x", "ux", "dx", "default") if (n >= 1023 and n <= 2050) or thorough else (rng.choice(["x", "ux"]), rng.choice(["dx", "default"]))
+            L += sample_lines(rng, "", y, modes)
+            bump("strata:samples-length")
+    # (8) non-uniform grids whose first spacing equals the mean spacing (round-2 seed C07e)
+    for _ in range(reps):
+        for n in (3, 4, 5, 6, 8, 9, 16, 17, 33, 100, 1024, 2049):
+            for _t in range(2):
+                h = rng.choice([0.5, 1.0, 2.0, 0.25, 3.0])
+                x0 = float(rng.randint(-20, 20))
+                x = [x0 + i * h for i in range(n)]
+                for i in range(2, n - 1):
+                    x[i] += rng.randint(-3, 3) * h / 16.0
+                y = [rng.normal() * 10.0 + rng.choice([0.0, 50.0]) for _ in range(n)]
+                L.append("trapezoid samples:x %s x %s nodx" % (vec(y), vec(x)))
+            bump("strata:first-spacing-is-mean")
+    # (9) extreme scale of the samples: y times 2^+-500 scales the result exactly
+    for _ in range(4 * reps):
+        g = 10 ** 9 + len(L)
+        n = rng.choice([2, 3, 9, 33, 200])
+        y = [rng.normal() for _ in range(n)]
+        x0, x = 0.0, []
+        for _i in range(n):
+            x.append(x0)
+            x0 += rng.loguniform(1e-2, 10)
+        for j, e in enumerate([0, 500, -500]):
+            ys = [v * 2.0 ** e for v in y]
+            L.append("trapezoid samples:ys:%d:%d:%d %s x %s nodx" % (g, j, e, vec(ys), vec(x)))
+            L.append("trapezoid samples:ys:%d:%d:%d %s nox dx %s" % (g + 1, j, e, vec(ys), f2h(0.375)))
+        bump("strata:samples-extreme-scale")
+    return L
 
 
 def nontrivial(line, reply):
@@ -505,6 +698,7 @@ def oracle(lines, impl):
 
     fam = {}  # (ig, a, b) -> {"diag": {j: (value, idx)}, "eps": [(eps, k, value, idx)]}
     uni = {}  # y-vector -> results of the uniform-grid pair
+    psg = {}  # (op, group) -> [(member, exponent, value, idx)]: exact power-of-two scaling families
     C = None
     mp = None
     for i, (l, rep) in enumerate(zip(lines, impl)):
@@ -526,7 +720,8 @@ def oracle(lines, impl):
             else:
                 j += 1
             dx = h2f(t[j + 1]) if t[j] == "dx" else None
-            key = "trapezoid:" + tag.split(":")[-1]
+            _tp = tag.split(":")
+            key = "trapezoid:" + (_tp[1] if len(_tp) > 1 else _tp[0])
             must_panic = (x is not None and (len(x) != n or dx is not None)) or (x is None and n == 0)
             if must_panic:
                 if st != "panic":
@@ -553,6 +748,8 @@ def oracle(lines, impl):
                     n, r, float(exact), err, C_S * unit), f2h(float(exact)))
             if tag in ("samples:ux", "samples:udx"):
                 uni.setdefault(" ".join(t[2:3 + n]), {})[tag] = (r, C_S * unit, i)
+            if len(_tp) == 5 and _tp[1] == "ys":
+                psg.setdefault(("trapezoid", _tp[2]), []).append((_tp[3], int(_tp[4]), r, i))
             continue
         # ------------------------------------------------ quadrature of a catalogue integrand
         p = parse_line(l)
@@ -598,6 +795,9 @@ def oracle(lines, impl):
         if not math.isfinite(r):
             bad(i, key, "non-finite result %r for a finite integrand on [%r, %r]" % (r, a, b))
             continue
+        _tp = tag.split(":")
+        if len(_tp) >= 5 and _tp[1] == "ps":
+            psg.setdefault((op, _tp[2]), []).append((_tp[3], int(_tp[4]), r, i))
         if p["name"] == "poly":
             err = float(abs(Fraction(r) - exact))
             ex_f = float(exact)
@@ -674,6 +874,15 @@ def oracle(lines, impl):
             (r1, b1, i1), (r2, b2, i2) = res["samples:ux"], res["samples:udx"]
             if abs(r1 - r2) > b1 + b2:
                 bad(i2, "trapezoid:uniform", "x form %r and dx form %r disagree on a uniform grid" % (r1, r2))
+    # ------------------------------------------------ exact power-of-two scaling of the integrand / the samples
+    for (op, g), members in psg.items():
+        base = [m for m in members if m[0] == "0"]
+        if not base:
+            continue
+        r0 = base[0][2]
+        for (j, e, r, i) in members:
+            if j != "0" and not (r == r0 * 2.0 ** e):
+                bad(i, "scale:" + op, "scaling the integrand by 2^%d gave %r, expected exactly %r" % (e, r, r0 * 2.0 ** e), f2h(r0 * 2.0 ** e))
     if os.environ.get("CV_CALIB"):
         print("CALIB C07", {k: round(v, 5) for k, v in sorted(CALIB.items())})
     return fails
